@@ -403,6 +403,12 @@ class Model:
         if in_io:
             self.unseen_effect('stop', uid)
             q = self.queue.get(uid)
+        if q is not None and not in_io and not q.finished() and uid in self.spawn_fault_uids \
+                and self.W is not None and q.loaded_iter < self.iter \
+                and bisect.bisect_left(q.occ, self.W, q.ptr) == len(q.occ):
+            # its last occurrences fell due in this wake-up, the start of the execution failed on an injected
+            # error (nothing ran, which R-ONCE forgives for exactly that), and the daemon retires the task
+            q.ptr = len(q.occ)
         if q is not None and q.finished() and not in_io:
             # retired by the daemon: it is gone from now on
             q.stopped = True
@@ -500,7 +506,10 @@ class Model:
                 self.v('R-REPLY', 'surplus-reply',
                        'connection of peer %s got more replies than instructions sent (%d)' % (c['peer'], len(instr)))
                 continue
-            self.apply_instr(c, instr[n], ok, uid[0] if uid else None, status)
+            # (an incarnation that a later instruction of the same request replaces again was armed and disarmed
+            # within this wake-up: there is no reschedule record of its own left to hold it against)
+            self.apply_instr(c, instr[n], ok, uid[0] if uid else None, status,
+                             superseded=any(i[1] == instr[n][1] for i in instr[n + 1:]))
 
     def expected_add(self, peer, uid, task, cal):
         """returns set of acceptable outcomes {'ok','fail'} per the property"""
@@ -540,7 +549,7 @@ class Model:
                 return u['uid']
         return None
 
-    def apply_instr(self, c, ins, ok, ruid, status):
+    def apply_instr(self, c, ins, ok, ruid, status, superseded=False):
         verb, uid, tid = ins
         peer = c['peer']
         self.stat('instructions')
@@ -574,7 +583,7 @@ class Model:
                 q.cal = cal
                 self.queue[uid] = q
                 rs = self.last_resched.get(uid)
-                if rs is not None and rs.get('t') == self.W and status != 'unseen':
+                if rs is not None and rs.get('t') == self.W and status != 'unseen' and not superseded:
                     self.check_armed(q, rs, self.W)
                 self.dirty.add(peer)
                 self.stat('adds_accepted')
